@@ -17,7 +17,7 @@ DocFeatures == {
    "additional_props_schema", "discriminator_mapping", "no_request_body", "allof_param", "readonly_required",
    "security_undeclared_scheme", "multiple_of_zero_with_default", "required_param_by_content",
    "number_array_param_multipleof", "yaml_body", "param_content_no_schema", "form_allof_object_default",
-   "form_body_no_schema", "multipart_body_no_schema", "recursive_schema_default"}
+   "form_body_no_schema", "multipart_body_no_schema", "recursive_schema_default", "type_empty_list"}
 (* the base document always has, besides the operation under test, a path item WITHOUT operations  *)
 (* (summary and shared parameters only): "/bare/{id}"                                              *)
 
